@@ -55,6 +55,7 @@ type loopInfo struct {
 	decr    Term
 	hasDecr bool
 	pre     *State
+	filtered bool // stale invariant conjuncts have been removed
 }
 
 func (ex *Exec) newFrame(fn *ssa.Function, args []*Val, depth int) *Frame {
@@ -331,6 +332,7 @@ func (ex *Exec) enterLoop(fr *Frame, l *loopInfo, st *State) *State {
 	ex.specWhere = fmt.Sprintf("loop %d (block %d) entry, quiet=%d", l.ordinal, l.header.Index, ex.quiet)
 	defer func() { ex.specWhere = "" }()
 	l.pre = st
+	ex.filterInvariants(fr, l, st)
 	// 1. invariants on entry
 	if l.spec != nil {
 		for i, c := range l.spec.Invariants {
@@ -842,4 +844,136 @@ func inductionVars(l *loopInfo) []string {
 		out = append(out, a.Comment)
 	}
 	return out
+}
+
+
+// filterInvariants drops, once per loop, the conjuncts of loop invariants that cannot be evaluated at the loop
+// head because a name they use does not exist (any more). An invariant is an auxiliary assertion-and-assumption:
+// removing a conjunct can only make later obligations harder to prove, never hide a violated property clause, so
+// this is sound; it keeps a contract usable after a harmless rename or restructuring of loop-local variables. The
+// dropped conjuncts are listed in the notes (and counted in the summary line).
+func (ex *Exec) filterInvariants(fr *Frame, l *loopInfo, st *State) {
+	if l.filtered || l.spec == nil {
+		return
+	}
+	l.filtered = true
+	var out []*Clause
+	changed := false
+	for _, c := range l.spec.Invariants {
+		parts := splitTopAnd(c.Expr)
+		var keep []*SExpr
+		for _, p := range parts {
+			if bad := ex.unresolvedName(fr, p, map[string]bool{}); bad != "" {
+				ex.staleInv = append(ex.staleInv, fmt.Sprintf("loop %d of %s: invariant conjunct `%s` ignored (no variable, parameter, constant or ghost named %s is in scope at the loop)", l.ordinal, fr.key, p.String(), bad))
+				changed = true
+				continue
+			}
+			keep = append(keep, p)
+		}
+		if len(keep) == len(parts) {
+			out = append(out, c)
+			continue
+		}
+		if len(keep) == 0 {
+			continue
+		}
+		e := keep[0]
+		for _, k := range keep[1:] {
+			e = &SExpr{Op: "bin", Name: "&&", Args: []*SExpr{e, k}}
+		}
+		c2 := *c
+		c2.Expr = e
+		out = append(out, &c2)
+	}
+	if changed {
+		l.spec = &LoopSpec{Invariants: out, Decreases: l.spec.Decreases, Unroll: l.spec.Unroll}
+	}
+}
+
+func splitTopAnd(e *SExpr) []*SExpr {
+	if e.Op == "bin" && e.Name == "&&" {
+		return append(splitTopAnd(e.Args[0]), splitTopAnd(e.Args[1])...)
+	}
+	return []*SExpr{e}
+}
+
+
+// unresolvedName returns the first plain identifier of a specification expression that resolves to nothing at the
+// loop head (purely syntactic: no evaluation, no side effects), or "".
+func (ex *Exec) unresolvedName(fr *Frame, e *SExpr, bound map[string]bool) string {
+	if e == nil {
+		return ""
+	}
+	switch e.Op {
+	case "id":
+		n := e.Name
+		if bound[n] || n == "nil" || n == "true" || n == "false" || n == "rangeindex" || n == "result" || strings.HasPrefix(n, "result") {
+			return ""
+		}
+		if fr.latestAlloc(n) != nil || len(fr.byName[n]) > 0 {
+			return ""
+		}
+		for _, p := range fr.fn.Params {
+			if p.Name() == n {
+				return ""
+			}
+		}
+		if fr.contract != nil {
+			for _, pn := range fr.contract.ParamNames {
+				if pn == n {
+					return ""
+				}
+			}
+		}
+		if _, ok := ex.p.cs.Ghosts[n]; ok {
+			return ""
+		}
+		if _, ok := ex.p.cs.Pures[n]; ok {
+			return ""
+		}
+		pkg := ""
+		if fr.fn.Pkg != nil {
+			pkg = fr.fn.Pkg.Pkg.Path()
+		}
+		for _, sp := range ex.p.ssaProg.AllPackages() {
+			if sp.Pkg.Path() == pkg && sp.Pkg.Scope().Lookup(n) != nil {
+				return ""
+			}
+		}
+		if ex.p.pkgPathByName(n) != "" {
+			return "" // a package qualifier (io.EOF, ...)
+		}
+		return n
+	case "forall", "exists":
+		b2 := map[string]bool{}
+		for k := range bound {
+			b2[k] = true
+		}
+		b2[e.Name] = true
+		for _, a := range e.Args {
+			if r := ex.unresolvedName(fr, a, b2); r != "" {
+				return r
+			}
+		}
+		return ""
+	case "sel":
+		// only the base expression can name a variable; the field name is checked by evaluation
+		if len(e.Args) > 0 {
+			return ex.unresolvedName(fr, e.Args[0], bound)
+		}
+		return ""
+	case "call":
+		for _, a := range e.Args {
+			if r := ex.unresolvedName(fr, a, bound); r != "" {
+				return r
+			}
+		}
+		return ""
+	}
+	for _, a := range e.Args {
+		if r := ex.unresolvedName(fr, a, bound); r != "" {
+			return r
+		}
+	}
+	return ""
 }
